@@ -20,6 +20,7 @@ CLAUSES = {
     "22": "PollOne dispatched handlers but reported a non-positive count",
     "23": "PollOne reported 0 without the timeout error",
     "24": "an untimed wait that signals interrupted reported an error, or returned while an operation was still in flight",
+    "25": "PollOne reported a timeout while a posted handler was queued: its wake-up was lost and the handler stays counted forever",
     "30": "posted handlers ran out of order",
     "31": "a queued post was not run by the poll that drained the wake-up descriptor",
     "panic": "call panicked",
@@ -319,6 +320,10 @@ def batch_cases():
         cases.append(("case", both + ["cancel 0", "pollone", "close 0"]))
         cases.append(("case", both + ["peer 0 data 4", "pollone", "pollone", "cancel 0", "close 0"]))
         cases.append(("case", both + ["pollone", "cancel 0", "pollone", "close 0"]))
+    # a posted handler posts again (the new handler belongs to the next dispatch and its wake-up must survive the current one)
+    cases.append(("case", ["prog 40 post 41", "post 40", "pollone", "pollone", "pollone"]))
+    cases.append(("case", ["prog 40 post 41 ; post 42", "prog 41 post 43", "post 40", "pollone", "pollone", "pollone", "pollone"]))
+    cases.append(("case", setup(["sock"]) + ["prog 40 post 41", "prog 41 start read 0 4 10", "post 40", "post 42", "pollone", "pollone", "peer 0 data 4", "pollone", "pollone"]))
     # the descriptor is closed underneath an object (and its number reused by something that cannot be polled): registrations
     # fail while the other direction is in flight; nothing may stay counted once the object is cancelled or closed
     for tail in (["close 0"], ["cancel 0", "close 0"], ["pollone", "close 0"]):
